@@ -562,8 +562,16 @@ func mergeInto(dst *workerResult, src *workerResult) {
 	dst.Notes = append(dst.Notes, src.Notes...)
 }
 
+// Scratch is a directory shared by all workers of one run (created by the parent, removed at the
+// end); empty when there is none (replay mode).
+func Scratch() string { return os.Getenv("VLIB_SCRATCH") }
+
 func parentMain(spec *Spec, tier string) int {
 	t0 := time.Now()
+	if dir, err := os.MkdirTemp("", "vlib-scratch-"); err == nil {
+		os.Setenv("VLIB_SCRATCH", dir)
+		defer os.RemoveAll(dir)
+	}
 	n := nWorkers(spec)
 	seed := int64(0)
 	if v := os.Getenv("VERIF_SEED"); v != "" {
